@@ -543,7 +543,8 @@ pub fn bclr(
     let bi = detail.operands[1].imm() as usize;
 
     let ctr = scalar("ctr", 32);
-    let branch_target = expr_scalar("lr", 32);
+    // NIA <- LR[0:29] || 0b00
+    let branch_target = Expr::and(expr_scalar("lr", 32), expr_const(0xffff_fffc, 32))?;
 
     match bo & 0x1f {
         0b00000..=0b00011 => {
@@ -729,7 +730,11 @@ pub fn bctr(control_flow_graph: &mut ControlFlowGraph, _: &capstone::Instr) -> R
     let block_index = {
         let block = control_flow_graph.new_block()?;
 
-        block.branch(expr_scalar("ctr", 32));
+        // NIA <- CTR[0:29] || 0b00
+        block.branch(Expr::and(
+            expr_scalar("ctr", 32),
+            expr_const(0xffff_fffc, 32),
+        )?);
 
         block.index()
     };
@@ -745,7 +750,11 @@ pub fn blr(control_flow_graph: &mut ControlFlowGraph) -> Result<(), Error> {
     let block_index = {
         let block = control_flow_graph.new_block()?;
 
-        block.branch(expr_scalar("lr", 32));
+        // NIA <- LR[0:29] || 0b00
+        block.branch(Expr::and(
+            expr_scalar("lr", 32),
+            expr_const(0xffff_fffc, 32),
+        )?);
 
         block.index()
     };
